@@ -66,6 +66,13 @@ Proof. split; [vm_compute; reflexivity | unfold in_sw; simpl; split; [discrimina
 Example C05_ex2 : write64 (-9223372036854775808) = [128;128;128;128;128;128;128;128;128;1].
 Proof. vm_compute. reflexivity. Qed.
 
+(* ---- tie to the source: Gen/Funcs.v is TRANSLATED from the Go code by tools/gotrans on every run *)
+From GoMC Require Gen.Funcs Proofs.C05_tie.
+Theorem C05_len32_translated : forall v : Z, Funcs.packet_VarInt_Len v = Z.of_N (len32 v).
+Proof. exact C05_tie.tie_VarInt_Len. Qed.
+Theorem C05_len64_translated : forall v : Z, Funcs.packet_VarLong_Len v = Z.of_N (len64 v).
+Proof. exact C05_tie.tie_VarLong_Len. Qed.
+
 Print Assumptions C05_leb_value.
 Print Assumptions C05_leb_canonical.
 Print Assumptions C05_leb_unique.
@@ -82,3 +89,5 @@ Print Assumptions C05_long_run32.
 Print Assumptions C05_long_run64.
 Print Assumptions C05_robust32.
 Print Assumptions C05_robust64.
+Print Assumptions C05_len32_translated.
+Print Assumptions C05_len64_translated.
